@@ -198,6 +198,16 @@ def _junk(rng, frames) -> tuple[str, str]:
     return kind, f[: rng.randrange(4, len(f))]
 
 
+_BY_CODE: dict[str, list[str]] = {}
+
+
+def _by_code(frames) -> dict[str, list[str]]:
+    if not _BY_CODE:
+        for _, f in frames:
+            _BY_CODE.setdefault(f[41:45], []).append(f)
+    return {k: list(v) for k, v in _BY_CODE.items()}
+
+
 def _clean(line: str) -> str:
     return line.replace("\r", "").replace("\n", "")
 
@@ -208,12 +218,34 @@ def _build_stream(ctx, frames, solo_ok) -> tuple[list[str], list[str], str, str]
     n = rng.randint(10, 14)
     valid: list[str] = []
     seen: set[str] = set()
+    cluster: list[str] = []
+    if rng.random() < 0.35:
+        # a cluster of one code heard from several devices (as on a real air: several controllers' 1F09s,
+        # many TRVs' 3150s ...); the junk is then a near-valid relative of one of them (below)
+        by_code = _by_code(frames)
+        code = rng.choice(("1F09", "1F09", "30C9", "3150", "2309", "000A", "10E0", "1060", "3B00", "0008"))
+        pool = by_code.get(code, [])
+        srcs: set[str] = set()
+        rng.shuffle(pool)
+        for f in pool:
+            if len(cluster) >= rng.choice((2, 3, 5)):
+                break
+            if f[4:] in seen or not solo_ok(f):
+                continue
+            if f[11:20] in srcs and rng.random() < 0.7:
+                continue
+            srcs.add(f[11:20])
+            seen.add(f[4:])
+            cluster.append(f)
+        valid += cluster
     while len(valid) < n:
         _, f = frames[rng.randrange(len(frames))]
         if f[4:] in seen or not solo_ok(f):
             continue
         seen.add(f[4:])
         valid.append(f)
+    if cluster:
+        rng.shuffle(valid)
     def fresh_junk() -> tuple[str, str]:
         # a junk line whose frame part *is* one of the stream's valid frames (e.g. only an annotation was
         # appended) is just a repeat of that frame: it would be delivered twice, which says nothing
@@ -226,6 +258,16 @@ def _build_stream(ctx, frames, solo_ok) -> tuple[list[str], list[str], str, str]
         return "chatter", "# evofw3 0.7.1"
 
     kind, junk = fresh_junk()
+    if cluster and rng.random() < 0.8:
+        # a near-valid relative of a cluster line: payload cut (or stretched) with the length field kept
+        # consistent, so that it is a well-formed frame whose *content* the decoder must refuse
+        f = rng.choice(cluster)
+        payload = f[50:]
+        k = rng.choice((1, 1, 2, max(1, len(payload) // 2 - 1), len(payload) // 2 + 1))
+        new_payload = (payload + "00" * 8)[: 2 * k]
+        cand = f"{f[:46]}{k:03d} {new_payload}"
+        if cand[4:] not in seen and not solo_ok(cand):
+            kind, junk = "relative", cand
     pos_class = rng.choice(("first", "middle", "last", "adjacent"))
     stream = list(valid)
     if pos_class == "first":
@@ -400,7 +442,7 @@ async def part_bc(loop: vloop.VirtualLoop, ctx) -> None:
     mqtt_rig = MqttRig()
     await mqtt_rig.start()
 
-    n_streams = 10 if ctx.quick else 400
+    n_streams = 25 if ctx.quick else 600
     for s in range(n_streams):
         valid, stream, kind, pos = _build_stream(ctx, frames, solo_ok)
         valid_set = {v[4:] for v in valid}
